@@ -104,6 +104,21 @@ def coq_make(timeout=1500):
         return rc == 0, out + err
 
 
+def coq_make_model(timeout=1500):
+    """Build only what extraction needs (Spec, Model, Generated): the model must stay runnable when a proof breaks."""
+    with Lock("coq"):
+        if not os.path.exists(os.path.join(COQ, "Makefile")):
+            run(["coq_makefile", "-f", "_CoqProject", "-o", "Makefile"], cwd=COQ, check=True)
+        targets = []
+        for sub in ("Spec", "Model", "Generated"):
+            d = os.path.join(COQ, "theories", sub)
+            for f in sorted(os.listdir(d)):
+                if f.endswith(".v"):
+                    targets.append("theories/%s/%so" % (sub, f))
+        rc, out, err = run(["make", "-j16"] + targets, cwd=COQ, timeout=timeout)
+        return rc == 0, out + err
+
+
 def forbidden_scan():
     """No Axiom / Parameter / Admitted / admit / guard switches anywhere in the development."""
     bad = []
@@ -185,9 +200,9 @@ def ensure_model(timeout=900):
             if x.startswith("model-"):
                 shutil.rmtree(os.path.join(BUILD, x), ignore_errors=True)
         os.makedirs(d, exist_ok=True)
-        ok, mlog = coq_make()
+        ok, mlog = coq_make_model()
         if not ok:
-            raise RuntimeError("Coq development does not build, cannot extract the model:\n" + mlog[-3000:])
+            raise RuntimeError("the model part of the Coq development does not build, cannot extract it:\n" + mlog[-3000:])
         with Lock("coq"):
             run(["coqc", "-Q", os.path.join(COQ, "theories"), "PegV", os.path.join(COQ, "theories", "Extract.v")],
                 cwd=d, timeout=timeout, check=True)
